@@ -56,6 +56,32 @@ op_burst = st.tuples(st.just("burst"), st.integers(0, 2), st.sampled_from([0, 0,
 op_post_race = st.tuples(st.just("post_race_reg"), st.integers(0, 2), st.integers(0, 2), st.sampled_from(TYPES))
 
 
+class _Same:
+    """Message content that compares equal to any other one of its kind - what an algorithm message repeating a value
+    looks like to anything that compares messages - while carrying the id the harness follows."""
+
+    def __init__(self, mid):
+        self.mid = mid
+
+    def __eq__(self, other):
+        return isinstance(other, _Same)
+
+    def __hash__(self):
+        return 0
+
+    def __repr__(self):
+        return "same#%d" % self.mid
+
+
+def _content(case, mid):
+    return _Same(mid) if case.get("same_content") else mid
+
+
+def _mid(msg):
+    c = msg.content
+    return c.mid if isinstance(c, _Same) else c
+
+
 @st.composite
 def seq_cases(draw):
     # the two interleaved operations hit listed findings, which ends the comparison for that history: keep them to a
@@ -77,7 +103,8 @@ def seq_cases(draw):
         ops.insert(pos, ["shutdown"])
     # destination 2 is rarely registered from the start: posts to it pile up until a register operation
     pre = draw(st.lists(st.integers(0, 1), max_size=2, unique=True)) + ([2] if draw(st.integers(0, 4)) == 0 else [])
-    return {"mode": "seq", "pre_registered": pre, "ops": ops}
+    # one history in four: every message has the same (equal) content, as repeated algorithm messages have
+    return {"mode": "seq", "pre_registered": pre, "ops": ops, "same_content": draw(st.integers(0, 3)) == 0}
 
 
 @st.composite
@@ -98,7 +125,8 @@ def thread_cases(draw):
             # a periodic action registered on the agent and lasting this many ms (0: none): posts and the shutdown
             # request can then arrive while the agent thread is inside it
             "periodic_ms": draw(st.sampled_from([0, 0, 3, 20])),
-            "tail_pause_ms": draw(st.sampled_from([0, 0, 70, 120]))}
+            "tail_pause_ms": draw(st.sampled_from([0, 0, 70, 120])),
+            "same_content": draw(st.integers(0, 3)) == 0}
 
 
 @st.composite
@@ -177,12 +205,12 @@ def run_seq(case):
             if full is not None:
                 return "%s: next_msg returned %r but the model queue is empty" % (where, full)
             return None
-        if exp[2] in parked_ids and (full is None or full[2].content != exp[2]):
+        if exp[2] in parked_ids and (full is None or _mid(full[2]) != exp[2]):
             labels.append("parked-forever-after-registration-inside-post")
         if full is None:
             return "%s: next_msg returned nothing but message #%d (type %d) is queued" % (where, exp[2], exp[0])
         src, dst, msg, ty = full
-        mid = msg.content
+        mid = _mid(msg)
         if mid != exp[2]:
             if mid in race_ids or exp[2] in race_ids:
                 labels.append("order-break-at-racing-registration")
@@ -205,9 +233,9 @@ def run_seq(case):
             posted_payload[mid] = (SENDERS[s], DESTS[d], ty)
             with under_test():
                 if ty is None:
-                    msging.post_msg(SENDERS[s], DESTS[d], Message("probe", mid))
+                    msging.post_msg(SENDERS[s], DESTS[d], Message("probe", _content(case, mid)))
                 else:
-                    msging.post_msg(SENDERS[s], DESTS[d], Message("probe", mid), ty)
+                    msging.post_msg(SENDERS[s], DESTS[d], Message("probe", _content(case, mid)), ty)
             if shutdown:
                 continue
             if DESTS[d] in registered:
@@ -226,9 +254,9 @@ def run_seq(case):
 
                 def race_post(racing=racing, d=d):
                     if racing[2] is None:
-                        msging.post_msg(racing[1], d, Message("probe", racing[0]))
+                        msging.post_msg(racing[1], d, Message("probe", _content(case, racing[0])))
                     else:
-                        msging.post_msg(racing[1], d, Message("probe", racing[0]), racing[2])
+                        msging.post_msg(racing[1], d, Message("probe", _content(case, racing[0])), racing[2])
                 armed.append(race_post)
                 labels.append("racing-registration") if "racing-registration" not in labels else None
             with under_test():
@@ -260,9 +288,9 @@ def run_seq(case):
                 labels.append("registration-inside-post") if "registration-inside-post" not in labels else None
             with under_test():
                 if ty is None:
-                    msging.post_msg(SENDERS[s], dn, Message("probe", mid))
+                    msging.post_msg(SENDERS[s], dn, Message("probe", _content(case, mid)))
                 else:
-                    msging.post_msg(SENDERS[s], dn, Message("probe", mid), ty)
+                    msging.post_msg(SENDERS[s], dn, Message("probe", _content(case, mid)), ty)
             del armed_sub[:]
             if shutdown:
                 continue
@@ -320,7 +348,7 @@ def run_threads(case):
             @register("probe")
             def _on_probe(self, sender, msg, t):
                 with lock:
-                    log.append((self.name, sender, msg.content, threading.current_thread().name))
+                    log.append((self.name, sender, _mid(msg), threading.current_thread().name))
 
         agent = Agent("a1", InProcessCommunicationLayer(), daemon=True)
         comps = {d: Rec(d) for d in DESTS}
@@ -349,9 +377,9 @@ def run_threads(case):
             mid = nid[0]
             posted.append((mid, sender, dest, ty, phase))
         if ty is None:
-            msging.post_msg(sender, dest, Message("probe", mid))
+            msging.post_msg(sender, dest, Message("probe", _content(case, mid)))
         else:
-            msging.post_msg(sender, dest, Message("probe", mid), ty)
+            msging.post_msg(sender, dest, Message("probe", _content(case, mid)), ty)
 
     old_switch = sys.getswitchinterval()
     errors = []
